@@ -15,6 +15,8 @@
     k and mode); sinks additionally = job.status, job.details, Job.as_json().
 (5) GitHub client flows (password and App authentication) through a scripted
     HTTP session with symbolic status codes; sinks = stdout, logs, exceptions.
+(6) c16wire.py: the real GitHub / Bitbucket clients on their real BertESession,
+    a host adapter that fails at a chosen exchange (transport or HTTP fault).
 """
 import ast
 import contextlib
@@ -443,6 +445,9 @@ def replay(data):
                                 data['job_kind'])[0])
     if k == 'github':
         return bool(github_run(data['app'], data['status_token'], data['status_get']))
+    if k == 'wire':
+        from . import c16wire
+        return c16wire.replay(data)
     return True
 
 
@@ -519,5 +524,8 @@ def check(rep):
             rep.cexs.append(Cex('C16', sig, data, replay(data), '%r' % r))
         else:
             rep.validated += 1
+    # (6) the real clients on the real session, failing on the wire
+    from . import c16wire
+    c16wire.part(rep)
     structural(rep)
     crosshair_lemma(rep)
